@@ -47,6 +47,11 @@ BigInts == { Prefix00 \o <<255>> \o Cont(n, x) : n \in 7..11, x \in {0, 1, 2, 64
 \* Huffman-coded names / values with bad padding inside otherwise complete field lines
 HuffBad == { Prefix00 \o <<41, 255, 0>>, Prefix00 \o <<41, 254, 0>>, Prefix00 \o <<33, 120, 129, 255>>, Prefix00 \o <<33, 120, 129, 254>>,
              Prefix00 \o <<80, 129, 255>>, Prefix00 \o <<80, 130, 28, 127>>, Prefix00 \o <<80, 132, 255, 255, 255, 255>>, Prefix00 \o <<80, 130, 199, 255>> }
+           \* an incomplete final code that begins in one byte (only ones there) and has a zero bit in a LATER byte: value after a static
+           \* name, value after a literal name, and in a Huffman-coded name
+           \cup { Prefix00 \o <<81, 130, 7, t>> : t \in {253, 254, 251, 127, 0} } \cup { Prefix00 \o <<81, 131, 7, 255, t>> : t \in {254, 127, 0} }
+           \cup { Prefix00 \o <<81, 131, 28, 127, t>> : t \in {254, 253} }
+           \cup { Prefix00 \o <<41, 31, 130, 7, 253>>, Prefix00 \o <<42, 7, 253, 0>>, Prefix00 \o <<42, 7, 254, 1, 97>> }
 
 (* ---- encode --------------------------------------------------------------------------------------------------------- *)
 Names == { StaticEntry(17)[1], StaticEntry(0)[1], StaticEntry(95)[1], StaticEntry(29)[1], <<120>>, <<120, 45, 108, 111, 110, 103>> \o [i \in 1..40 |-> 97] }
